@@ -510,6 +510,7 @@ pub fn main(args: &Args) -> i32 {
     let alpha = alphabet();
     let depth = args.tier.pick(4usize, 5usize);
     let states: Mutex<HashSet<u64>> = Mutex::new(HashSet::new());
+    let sink = osrv::VioSink::default();
     let (transitions, histories, dead, failed_last) = (AtomicU64::new(0), AtomicU64::new(0), AtomicU64::new(0), AtomicU64::new(0));
     let total = enumerate::count_strings(alpha.len(), depth);
     osrv::par_items(total, 64, &report, &states, |n, acc| {
@@ -551,7 +552,7 @@ pub fn main(args: &Args) -> i32 {
                     canon(&pre),
                     history.last().map(|o| (o.kind(), o.path())),
                     canon(&post),
-                    post.sigs.iter().map(|s| match s { Sig::Added { from, path, ifaces } => (0, from.clone(), path.clone(), ifaces.keys().cloned().collect::<Vec<_>>()), Sig::Removed { from, path, ifaces } => (1, from.clone(), path.clone(), ifaces.clone()), Sig::Odd(_) => (2, String::new(), String::new(), vec![]) }).collect::<Vec<_>>(),
+                    { let mut v = post.sigs.iter().map(|s| match s { Sig::Added { from, path, ifaces } => (0, from.clone(), path.clone(), ifaces.keys().cloned().collect::<Vec<_>>()), Sig::Removed { from, path, ifaces } => (1, from.clone(), path.clone(), ifaces.clone()), Sig::Odd(_) => (2, String::new(), String::new(), vec![]) }).collect::<Vec<_>>(); v.sort(); v },
                 )));
                 if hash64(&n) % (total as u64 / 10).max(1) == 0 {
                     report.sample(json!({
@@ -562,11 +563,13 @@ pub fn main(args: &Args) -> i32 {
                     }));
                 }
                 for v in vs {
-                    report.violation(v);
+                    sink.push(&report, v);
                 }
             }
         }
     });
+    report.set("violating_transitions", json!(sink.total()));
+    report.set("violating_transitions_by_identity", sink.summary());
     report.set("full_tree_depth", json!(depth));
     report.set("states", json!(states.lock().unwrap().len()));
     report.set("states_meaning", json!("distinct (listing of either manager incl. property values, registered pairs) observations"));
